@@ -377,6 +377,11 @@ def _is_twice_count(fn, e, depth=0, prog=None):
             if v.get("k") == "VarDecl" and v.get("d") == e.get("d"):
                 if v.get("c") and folded(v["c"][0]) not in (0, None) and not _is_twice_count(fn, v["c"][0], depth + 1, prog):
                     return False
+                if v.get("c") and folded(v["c"][0]) is None:
+                    # initialised with the whole amount at once
+                    if not _is_twice_count(fn, v["c"][0], depth + 1, prog):
+                        return False
+                    ok_any = True
             if v.get("k") in ("CompoundAssignOperator", "BinaryOperator") and v.get("op") in flow.ASSIGN_OPS and \
                     strip_all(v["c"][0]).get("d") == e.get("d"):
                 if v.get("op") != "+=" or not _is_twice_count(fn, v["c"][1], depth + 1, prog):
@@ -388,6 +393,9 @@ def _is_twice_count(fn, e, depth=0, prog=None):
         for x, y in ((a, b), (b, a)):
             if folded(x) == 2:
                 return _is_count(fn, y, depth + 1, prog)
+    if e.get("k") == "BinaryOperator" and e.get("op") == "+":
+        # 2*a + 2*b ; also 2*(a + b)
+        return _is_twice_count(fn, e["c"][0], depth + 1, prog) and _is_twice_count(fn, e["c"][1], depth + 1, prog)
     return False
 
 
@@ -568,7 +576,7 @@ def rule_listo_applies_to_every_line(prog, fixture=False):
     r = RuleResult("R-C03-6", "in decode_line the LISTO option bits are consulted independently of the line's number: "
                    "no read of `listo` is control-dependent on a condition over the line number, so the layout "
                    "options apply alike to numbered lines and to lines whose number is 0 (omitted)",
-                   floor=0 if fixture else 3)
+                   floor=0 if fixture else 1)
     for fn in prog.fn("decode_line", required=not fixture):
         lp = [p_ for p_ in fn.params if p_.get("n") == "listo"]
         if not lp:
